@@ -1568,3 +1568,46 @@ type read_result = { rr_outcome : outcome; rr_obs : observation list;
 val run_reads :
   uData -> config -> str -> (str * str) option -> str list -> killring ->
   istream -> nat -> read_result list
+
+type row = { r_id : nat; r_sess : nat; r_entry : str }
+
+type sqlh = { q_rows : row list; q_nsess : nat; q_cache : nat; q_sess : 
+              nat; q_max : nat; q_igs : bool; q_igd : bool; q_cfg_max : 
+              nat }
+
+val sql_new : nat -> bool -> bool -> sqlh
+
+val max_id : row list -> nat
+
+val sql_ignore : uData -> sqlh -> str -> bool
+
+val same_key : nat -> str -> row -> bool
+
+val sql_add : uData -> sqlh -> str -> sqlh * bool
+
+val find_ge : row list -> nat -> row option
+
+val find_le : row list -> nat -> row option
+
+val sql_get : sqlh -> nat -> sdir -> sqlh * (nat * str) option
+
+val sql_set_max : sqlh -> nat -> sqlh
+
+val sql_reopen : sqlh -> sqlh
+
+type sop =
+| SAdd of str
+| SGet of nat * sdir
+| SLen
+| SSetMax of nat
+| SReopen
+
+type sout =
+| SoBool of bool
+| SoGet of (nat * str) option
+| SoNat of nat
+| SoUnit
+
+val sql_step : uData -> sqlh -> sop -> sqlh * sout
+
+val sql_run : uData -> sqlh -> sop list -> sqlh * sout list
